@@ -261,6 +261,81 @@ def auto_extend_ticker(chk, prog):
             intr={'time.NewTicker': new_ticker}, max_paths=1000)
 
 
+def pusher_lifecycle(chk, prog):
+    """one round of the background http-pusher service from an arbitrary registry state: a pusher that has ended (for whatever reason:
+    cleanly, cancelled, with an error) is forgotten, and every live push subscription has a running pusher afterwards - otherwise a
+    subscription switched push -> pull -> push would never be pushed to again"""
+    from gosym import reldb, world, stdlib
+    from gosym.core import GoPanic, PathAbort, Opaque, MapObj, Iface, PyFunc
+    from gosym.stdlib import GoContext, mkerr
+    SVC = 'go.6river.tech/mmmbbb/services.'
+    HP = SVC + 'httpPusher'
+    MP = SVC + 'monitoredPusher'
+    if HP not in prog.types or ('(*' + HP + ').startPushersOnce') not in prog.funcs:
+        chk.inconclusive.append('http pusher service not found (renamed?): pusher lifecycle not checked')
+        return
+
+    def harness(ex, ob):
+        db = reldb.sym_db(ex, prog, {'Topic': 1, 'Subscription': 1, 'Message': 0, 'Delivery': 0, 'Snapshot': 0}, exists=True)
+        s0 = db.t['Subscription'][0]
+        s0.v['name'] = 'projects/p/subscriptions/r0'
+        ex.assume(Or(s0.isnull('push_endpoint'), Not(ex.eq(s0.v['push_endpoint'], ''))))
+        is_push = And(s0.isnull('deleted_at'), Not(s0.isnull('push_endpoint')))
+        # the registry: no entry for the subscription, a running pusher, or one that has ended with nil / Canceled / another error
+        state = ['none', 'running', 'ended-nil', 'ended-canceled', 'ended-error'][ex.choose(5)]
+        started, cancelled = [], []
+        pushers = MapObj()
+        waits = {}
+        if state != 'none':
+            ctxm = GoContext()
+            if state != 'running':
+                ctxm.done_ch.closed = True
+            grp = ex.new_ptr(ex.zero('golang.org/x/sync/errgroup.Group'))
+            canceled = ex.load(ex.global_ptr('context.Canceled', '*error'))
+            waits[id(grp)] = None if state in ('running', 'ended-nil') else (canceled if state == 'ended-canceled' else mkerr('push', 'endpoint gone'))
+            mp = ex.zero(MP)
+            ex.setf(mp, 'Group', grp)
+            ex.setf(mp, 'Context', Iface('context', ctxm))
+            ex.setf(mp, 'cancel', PyFunc(lambda ex_, a: cancelled.append('old'), 'cancel'))
+            pushers.ents.append([s0.v['id'], mp])
+
+        def eg_wait(ex_, a, name):
+            return waits.get(id(a[0]))
+
+        def monitor(ex_, a, name):
+            started.append(1)
+            mp2 = ex_.zero(MP)
+            ex_.setf(mp2, 'Context', Iface('context', GoContext()))
+            ex_.setf(mp2, 'cancel', PyFunc(lambda e2, a2: cancelled.append('new'), 'cancel'))
+            return mp2
+        ex.intrinsics = dict(ex.intrinsics)
+        ex.intrinsics['(*golang.org/x/sync/errgroup.Group).Wait'] = eg_wait
+        ex.intrinsics[SVC + 'monitorPusher'] = monitor
+        ex.intrinsics[A + 'NewHttpPusher'] = lambda ex_, a, name: None
+        hp = ex.new_ptr(ex.new_struct(HP, client=reldb.make_client(ex, db), logger=Opaque('logger'), pushers=pushers))
+        try:
+            err = ex.call_named('(*' + HP + ').startPushersOnce', [hp, stdlib.new_context(ex)])
+        except GoPanic as p:
+            raise PathAbort('panic in the round: C16')
+        if err is not None:
+            raise PathAbort('round failed')
+        ob.reached(ex)
+        has_entry = len(pushers.ents) > 0
+        d = lambda m: {'registry before': state, 'subscription is a live push subscription': str(m.eval(zbool(is_push), model_completion=True)),
+                       'pushers started': len(started), 'entries after': len(pushers.ents)}
+        if state.startswith('ended'):
+            # the dead entry is gone (or replaced by a fresh pusher)
+            ob.verify(ex, 'ended-pusher-is-forgotten', Or(Not(has_entry), len(started) > 0), d)
+            ob.verify(ex, 'live-push-subscription-gets-a-new-pusher', Implies(is_push, len(started) == 1), d)
+        elif state == 'none':
+            ob.verify(ex, 'live-push-subscription-gets-a-pusher', ex.eq(len(started) == 1, is_push), d)
+        else:
+            ob.verify(ex, 'running-pusher-is-not-duplicated', len(started) == 0, d)
+            ob.verify(ex, 'pusher-of-a-subscription-that-stopped-pushing-is-cancelled', Implies(Not(is_push), 'old' in cancelled), d)
+    chk.run('pusher-service:round-restarts-ended-pushers', prog, harness, bounds={'subscriptions': 1, 'registry': 'no entry / running / ended with nil, Canceled or another error'},
+            setup=world.setup, max_paths=20000)
+
+
 if __name__ == '__main__':
     chk = Check('C19')
     prog = load_program()
@@ -268,6 +343,7 @@ if __name__ == '__main__':
     send_obligations(chk, prog)
     receive_window(chk, prog)
     auto_extend_ticker(chk, prog)
+    pusher_lifecycle(chk, prog)
     chk.assumptions += ['net/http, encoding/json, base64 and time formatting are opaque injective functions: the check decides which value flows into which envelope field, not the byte layout',
                         'the HTTP client returns an arbitrary status in 100..599 or a transport error after an arbitrary latency',
                         'acks/nacks continue through MessageStreamer (C03/C04/C06); the number of concurrent pushes is bounded by the window through flow control (C11)']
